@@ -1450,6 +1450,12 @@ impl<D: TextDecorator> Renderer for SubRenderer<D> {
         self.flush_wrapping()?;
         let tag = self.ann_stack.clone();
 
+        // Fragment markers after the last line of `other` have no line of
+        // their own; keep them for our next line.
+        let mut other = other;
+        other.flush_wrapping()?;
+        let trailing_frags = std::mem::take(&mut other.pending_frags);
+
         self.extend_lines(
             other
                 .into_lines()?
@@ -1479,6 +1485,7 @@ impl<D: TextDecorator> Renderer for SubRenderer<D> {
                     }
                 }),
         );
+        self.pending_frags.extend(trailing_frags);
 
         Ok(())
     }
@@ -1495,10 +1502,14 @@ impl<D: TextDecorator> Renderer for SubRenderer<D> {
         self.flush_wrapping()?;
 
         let mut tot_width = 0;
+        // Fragment markers from cells which have no line to carry them
+        let mut cell_frags = Vec::new();
 
         let mut line_sets = cols
             .into_iter()
-            .map(|sub_r| {
+            .map(|mut sub_r| {
+                sub_r.flush_wrapping()?;
+                cell_frags.append(&mut sub_r.pending_frags);
                 let width = sub_r.width;
                 tot_width += width;
                 html_trace!("Adding column:\n{}", sub_r.to_string());
@@ -1524,6 +1535,7 @@ impl<D: TextDecorator> Renderer for SubRenderer<D> {
             .collect::<Result<Vec<(usize, Vec<RenderLine<_>>)>>>()?;
 
         tot_width += line_sets.len().saturating_sub(1);
+        self.pending_frags.extend(cell_frags);
 
         let mut next_border = BorderHoriz::new(tot_width, self.ann_stack.clone());
 
